@@ -243,7 +243,7 @@ impl Prop for C17 {
                 name: "enum-corners",
                 kind: StageKind::Enumerate { scope: "6x6 corner texts x 5 tokenizers x 3 algorithms x {str,[u8]}".into(), exhaustive: true, gen: enum_small },
             },
-            Stage { name: "random", kind: StageKind::Random { strategy: strat, cases: tier.pick(120_000, 1_500_000) } },
+            Stage { name: "random", kind: StageKind::Random { strategy: strat, cases: tier.pick(400_000, 2_000_000) } },
         ]
     }
     fn check(case: &TextCase, obs: &mut Obs) -> Verdict {
